@@ -132,6 +132,7 @@ type Meta struct {
 	Seed      int
 	Wall      time.Duration
 	VerifDir  string
+	OutDir    string // where evidence and replay files are written (default VerifDir)
 	Packages  int
 	Functions int
 	Instrs    int
@@ -143,6 +144,9 @@ type Meta struct {
 // Finish applies floors and known findings, writes evidence and replay files,
 // prints the interface lines and returns the exit code.
 func Finish(r *Result, m Meta) int {
+	if m.OutDir == "" {
+		m.OutDir = m.VerifDir
+	}
 	floors, err := LoadFloors(filepath.Join(m.VerifDir, "expect.json"))
 	if err != nil {
 		fmt.Println("cannot read expect.json:", err)
@@ -193,7 +197,7 @@ func Finish(r *Result, m Meta) int {
 	for _, f := range knownF {
 		fmt.Printf("KNOWN-FINDING: property=%s %s [%s] %s: %s\n", f.Property, f.Construct, f.Rule, f.Where, oneLine(f.Detail))
 	}
-	replayDir := filepath.Join(m.VerifDir, "replay")
+	replayDir := filepath.Join(m.OutDir, "replay")
 	os.MkdirAll(replayDir, 0o755)
 	// clear old replay files of this property
 	if old, _ := filepath.Glob(filepath.Join(replayDir, r.Property+"-*.json")); old != nil {
@@ -273,7 +277,7 @@ func writeEvidence(r *Result, m Meta, newF, knownF []Finding) {
 		"wall_s":      m.Wall.Seconds(),
 		"violations":  len(newF),
 	}
-	dir := filepath.Join(m.VerifDir, "evidence")
+	dir := filepath.Join(m.OutDir, "evidence")
 	os.MkdirAll(dir, 0o755)
 	b, _ := json.MarshalIndent(ev, "", " ")
 	tmp := filepath.Join(dir, r.Property+".json.tmp")
